@@ -3,6 +3,7 @@ package props
 import (
 	"fmt"
 	"math/big"
+	"math/rand"
 	"strings"
 
 	"github.com/cockroachdb/apd/v3"
@@ -369,7 +370,8 @@ func bigIntAliasCase(t *mon.T) {
 	if yb.Sign() == 0 {
 		yb.SetInt64(3)
 	}
-	ops := []string{"Add", "Sub", "Mul", "Quo", "Rem", "Div", "Mod", "And", "Or", "Xor", "AndNot", "GCDpos", "QuoRem", "DivMod", "Neg", "Abs", "Not", "Lsh", "Rsh", "Sqrt", "Set"}
+	ops := []string{"Add", "Sub", "Mul", "Quo", "Rem", "Div", "Mod", "And", "Or", "Xor", "AndNot", "GCDpos", "QuoRem", "DivMod", "Neg", "Abs", "Not", "Lsh", "Rsh", "Sqrt", "Set", "Rand"}
+	randSeed := int64(r.U64() >> 1)
 	op := ops[r.Intn(len(ops))]
 	sh := uint(r.Intn(200))
 	// apply runs the method with z, x, y (and r2 for two-result methods)
@@ -427,9 +429,35 @@ func bigIntAliasCase(t *mon.T) {
 			}
 		case "Set":
 			z.Set(x)
+		case "Rand":
+			// n.Rand(rnd, n) is supported by math/big; the source is re-seeded per call
+			var ax apd.BigInt
+			ax.Abs(x)
+			if ax.Sign() == 0 {
+				ax.SetInt64(7)
+			}
+			if z == x {
+				// in place, so that z keeps the representation it arrived with
+				z.Abs(z)
+				if z.Sign() == 0 {
+					z.SetInt64(7)
+				}
+				z.Rand(rand.New(rand.NewSource(randSeed)), z)
+			} else {
+				z.Rand(rand.New(rand.NewSource(randSeed)), &ax)
+			}
 		}
 	}
-	mk := func(b *big.Int) *apd.BigInt { return new(apd.BigInt).SetMathBigInt(b) }
+	// one value in three arrives heap-backed although it may be small (through
+	// in-place arithmetic that went beyond 128 bits and came back)
+	mk := func(b *big.Int) *apd.BigInt {
+		v := new(apd.BigInt).SetMathBigInt(b)
+		if (b.BitLen()+int(randSeed))%3 == 0 {
+			v.Lsh(v, 200)
+			v.Rsh(v, 200)
+		}
+		return v
+	}
 	var z0, r0 apd.BigInt
 	apply(&z0, mk(xb), mk(yb), &r0)
 	wantZ, wantR := z0.String(), r0.String()
